@@ -17,6 +17,10 @@ pub fn check(bc: &BuildCase, obs: &mut Obs) -> Result<(), Fail> {
             return Ok(());
         }
     };
+    let mut built = built;
+    if let Some(what) = built.edit_after_build(bc.hash() ^ 0x16) {
+        obs.label(&format!("modules_edited_after_build:{}", what));
+    }
     let n = built.size();
     let vals = built.values();
     // what happened on this thread just before (one case in four each): a rendering of ANOTHER, larger symbol; a
